@@ -214,8 +214,8 @@ def lean_pow_safe(text):
         return False
 
 
-def close(real, want):
-    """real float array vs exact object array"""
+def close(real, want, scale=1):
+    """real float array vs exact object array; `scale` is the largest intermediate magnitude (cancellation)"""
     real = numpy.asarray(real)
     if real.shape != numpy.shape(want): return False
     for i in itertools.product(*map(range, real.shape)):
@@ -225,7 +225,7 @@ def close(real, want):
             r = r.real
         if not math.isfinite(r): return False
         wf = float(w)
-        if abs(float(r) - wf) > 1e-9 * max(1.0, abs(wf)): return False
+        if abs(float(r) - wf) > 1e-9 * max(1.0, abs(wf)) + 1e-12 * float(scale): return False
     return True
 
 
@@ -363,14 +363,17 @@ def semantic_stream(c, world, cases, answers, rng, lean_eval=None):
         if ast is not None and ast[0] == 'reject':
             spec = ('reject', ast[1]); ast = None
             c.count('%s-spec:%s' % (label, spec[0]))
+        scale = 1
         if ast is not None:
+            G.TRACK['max'] = 1
             try:
                 v = reader.read(ast)
-                spec = ('value', v) if magnitude_ok(v.arr) else ('degenerate',)
+                spec = ('value', v) if magnitude_ok(v.arr) and G.TRACK['max'] < 10**12 else ('degenerate',)
             except G.Reject as e:
                 spec = ('reject', str(e))
             except (G.Degenerate, ZeroDivisionError, OverflowError):
                 spec = ('degenerate',)
+            scale = G.TRACK['max']
             c.count('%s-spec:%s' % (label, spec[0]))
         # --- the exact value of the operation tree predicted by the Lean model
         model_val = None
@@ -413,7 +416,7 @@ def semantic_stream(c, world, cases, answers, rng, lean_eval=None):
                     continue
             elif r[0] == 'value':
                 want = G.aligned(v, target)
-                if not close(r[1], want):
+                if not close(r[1], want, scale):
                     findings += 1
                     c.failing_input('v2-eval-differs-from-reading', 'the v2 namespace evaluates a grammar-conforming string to something else than its index-notation reading', dict(replay, want=repr(want.tolist())))
                     continue
@@ -447,7 +450,7 @@ def semantic_stream(c, world, cases, answers, rng, lean_eval=None):
                     pending.append(('corr:v2-namespace-' + label, 'model accepts, real code rejects', replay))
             elif model_val is not None and model_val[0] == 'value':
                 want = model_val[1].transpose([f[3].index(l) for l in target])
-                if not close(r[1], want):
+                if not close(r[1], want, max(scale, 10**6)):
                     pending.append(('corr:v2-namespace-' + label, 'real value differs from the exact value of the predicted op tree', dict(replay, want=repr(want.tolist()))))
                 else:
                     c.count(label + '-optree-value-ok')
@@ -502,10 +505,10 @@ def run(c):
     gen = G.Gen(rng, ctx, sides=True, gradient=True)
 
     # ---------------------------------------------------------------- stream 1: structural correspondence of the parser
-    n_ast = 250 if quick else 6000
-    n_edit = 40 if quick else 70
-    n_full = 3 if quick else 40
-    n_raw = 1500 if quick else 40000
+    n_ast = 250 if quick else 4000
+    n_edit = 40 if quick else 50
+    n_full = 3 if quick else 25
+    n_raw = 1500 if quick else 30000
     asts = []
     for k in range(n_ast):
         depth = rng.choice([0, 1, 2, 2, 3, 3, 4, 5, 6])
@@ -727,9 +730,10 @@ def v1_stream(c, rng, sctx, quick):
             if kind != 'none': todo.append(('violate-' + kind, bad))
         for tag, t in todo:
             s = G.pr(t, G.Style(rng if k % 2 else None), v1=True)
+            G.TRACK['max'] = 1
             try:
                 v = world.reader.read(t)
-                spec = ('value', v) if magnitude_ok(v.arr) else ('degenerate',)
+                spec = ('value', v) if magnitude_ok(v.arr) and G.TRACK['max'] < 10**12 else ('degenerate',)
             except G.Reject as e:
                 spec = ('reject', str(e))
             except (G.Degenerate, ZeroDivisionError, OverflowError):
@@ -746,7 +750,7 @@ def v1_stream(c, rng, sctx, quick):
                 c.failing_input('v1-wrong-exception:' + r[1], 'v1: a string is rejected with %s instead of ExpressionSyntaxError' % r[1], replay)
             elif spec[0] == 'value' and r[0] == 'value':
                 want = G.aligned(spec[1], target)
-                if not close(r[1], want):
+                if not close(r[1], want, G.TRACK['max']):
                     findings += 1
                     c.failing_input('v1-eval-differs-from-reading', 'the v1 namespace evaluates a grammar-conforming string to something else than its index-notation reading', dict(replay, want=repr(want.tolist())))
                 else:
